@@ -79,6 +79,23 @@ def scenarios(ctx, n, malformed_share=0.3):
         for j, n_ in enumerate(names): ops += [f"fastfind i0 h0 {n_.hex() or '='}"]
         ops += [f"fastfind i0 h0 {b'/zzzz-no-such-name'.hex()}", f"ffextract i0 h0 {names[-1].hex() or '='} ff", "close i0 h0", "destroy i0"]
         out.append((S.file_lines(case) + ops, dict(family="chm.pmgl-chain", how="directed", kind="chm", exhaustive=True)))
+    # the same directory listed through open() (reads every chunk), one member extracted
+    if case:
+        nm = case["meta"]["order"][0]
+        out.append((S.file_lines(case) + ["new chm", f"open i0 {nm}", "extract i0 h0 0 o0", "close i0 h0", "destroy i0"],
+                    dict(family="chm.pmgl-chain-open", how="directed", kind="chm", exhaustive=True)))
+    # small LZSS files with literals and matches of each kind (plain, overlapping, wrapping), SZDD and KWAJ method 2
+    from vgen import szdd, kwaj, lz
+    toks = [("L", 0x41 + i) for i in range(10)] + [("M", 10, 5), ("L", 0x7a), ("M", 1, 9), ("M", 4096, 3), ("L", 0x21), ("M", 3, 18), ("L", 0x22), ("M", 20, 4)]
+    plain = lz.expand(toks, b"\x20" * 4096)
+    out.append(([f"file f.sz_ {szdd.build(toks, False).hex()}", "new szdd", "open i0 f.sz_", "extract i0 h0 - o1", "close i0 h0", "decompress i0 f.sz_ o2", "destroy i0"],
+                dict(family="szdd.small-matches", how="directed", kind="szdd", exhaustive=True)))
+    out.append(([f"file f.kwj {kwaj.build(2, szdd.lzss_encode(toks, 4078), length=len(plain), name=b'A', ext=b'TXT', extra=b'xy').hex()}", "new kwaj", "open i0 f.kwj", "extract i0 h0 - o1", "close i0 h0",
+                 "decompress i0 f.kwj o2", "destroy i0"], dict(family="kwaj.small-matches", how="directed", kind="kwaj", exhaustive=True)))
+    # search() over a small file: junk, a stored cabinet, junk
+    scab, _ = minicab.build([(0, [(b"payload-bytes", 13)])], [dict(name=b"p.bin", length=13, offset=0, folder=0)])
+    out.append(([f"file s.bin {(b'junkMSjunk' + scab + b'MSCFtrail').hex()}", "new cab", "param i0 SEARCHBUF 16", "search i0 s.bin", "extract i0 h0 0 o0", "close i0 h0", "destroy i0"],
+                dict(family="cab.search-small", how="directed", kind="cab", exhaustive=True)))
     for rt in ("entry16", "entry12"):
         for _ in range(20):
             try:
